@@ -349,6 +349,29 @@ func genCaseSig(t *rapid.T) CaseSig {
 		for rapid.IntRange(0, 2).Draw(t, "tailfiller") == 0 {
 			hs = append(hs, fillerHeader(t))
 		}
+		// a later Via may also follow on the SAME header line (comma separated, possibly folded)
+		if rapid.IntRange(0, 2).Draw(t, "viasameline") == 0 {
+			for i := range hs {
+				if refHdrType(hs[i].Name) == sipsp.HdrVia {
+					hs[i].Val = append(append(B{}, hs[i].Val...), pick(t, "viasep", ", ", ",", " ,\r\n ", ",\r\n\t")...)
+					hs[i].Val = append(hs[i].Val, "SIP/2.0/UDP later.example;branch=z9hG4bK-x.y_z;rport"...)
+					break
+				}
+			}
+		}
+		// for a non-INVITE request Contact is not fingerprinted: a Contact header is just another header
+		if string(c.Method) != "INVITE" && rapid.IntRange(0, 2).Draw(t, "contactfiller") == 0 {
+			hasContact := false
+			for _, h := range hs {
+				if refHdrType(h.Name) == sipsp.HdrContact {
+					hasContact = true
+				}
+			}
+			if !hasContact {
+				pos := rapid.IntRange(0, len(hs)).Draw(t, "ctpos")
+				hs = insertAt(hs, pos, SigHdr{recase(t, pick(t, "ctname", "Contact", "m")), B("<sip:extra@contact.example>;expires=5")})
+			}
+		}
 		c.Vars = append(c.Vars, hs)
 	}
 	if rapid.Bool().Draw(t, "chunked") {
